@@ -9,6 +9,7 @@ CONSTANTS
   RemotePrunes <- MC_RemotePrunesQ
   Policies = {"auto", "explicit"}
   ResetHeights <- MC_ResetHeights
+  Defect_ReadBeforePermit = FALSE
   MaxPub = 2
   MaxPrune = 1
   MaxImp = 0
@@ -26,6 +27,7 @@ INVARIANTS
   PrunedOnlyBelowPruneOp
   CursorIsMaxOfAcked
   OnlyOwnTopicAcked
+  ForeignNeverPastCheck
   ReplayExact
   ReplayQueueCoversExpect
   NeverForgotten
